@@ -8,6 +8,15 @@ Open Scope Z_scope.
                                                  vars = [[name value] ...] values of the %variables the value uses
            [3 cmd params [host path rawquery]]   mod_redirect action
            [4 cmd params [host path rawquery] reqhdr]   bfe_basic/action.Action loaded from JSON and run with Do
+           [6 ops]                               mod_rewrite reload history on one module instance (empty table first):
+                                                 op = [0 [[product rules] ...]] reload through loadConfData
+                                                    | [1 product [host path rawquery]] request through rewriteHandler;
+                                                 output: one observation per op ([1] | VErr 1 | [host path rawquery cache])
+           [8 ops vars]                          mod_header reload history: op = [0 [[product rules] ...]] (rules as in 5)
+                                                 | [1 product reqhdr rsphdr]; output per op: [1] | VErr 1 | [reqhdr rsphdr]
+           [7 ops]                               mod_redirect reload history: op = [0 [[product rules] ...]] with
+                                                 rule = [match [[cmd params] ...] status] | [1 product [host path rawquery]];
+                                                 output per op: [1] | VErr 1 | [0] no redirect | [1 location status]
            [5 rules [host path rawquery]]        mod_rewrite rule file; rules = [[match last [[cmd params] ...]] ...]
    output: VErr 1 (configuration rejected) | [host path rawquery cache] (cache = [] if Request.Query is nil, else
            [map] with map = [[key [values]] ...] sorted by key) | [reqhdr rsphdr] | [url] | [[host path rawquery cache] reqhdr] *)
@@ -46,12 +55,58 @@ Definition dec_rule (v : val) : option rw_rule :=
   | _ => None
   end.
 
+Inductive rwop := RLoad (c : rw_conf) | RReq (product : bytes) (u : url).
+Definition dec_prules (v : val) : option (bytes * list rw_rule) :=
+  match v with
+  | VL [VB p; VL rs] => match all_some (map dec_rule rs) with Some r => Some (p, r) | None => None end
+  | _ => None
+  end.
+Definition dec_rwop (v : val) : option rwop :=
+  match v with
+  | VL [VZ 0; VL c] => match all_some (map dec_prules c) with Some c' => Some (RLoad c') | None => None end
+  | VL [VZ 1; VB p; u] => match dec_url u with Some u' => Some (RReq p u') | None => None end
+  | _ => None
+  end.
+
+Inductive rdop := DLoad (c : rd_conf) | DReq (product : bytes) (u : url).
+Definition dec_rdrule (v : val) : option rd_rule :=
+  match v with
+  | VL [VZ m; VL acts; VZ st] =>
+    match all_some (map dec_action acts) with Some a => Some (negb (m =? 0), a, st) | None => None end
+  | _ => None
+  end.
+Definition dec_rdprules (v : val) : option (bytes * list rd_rule) :=
+  match v with
+  | VL [VB p; VL rs] => match all_some (map dec_rdrule rs) with Some r => Some (p, r) | None => None end
+  | _ => None
+  end.
+Definition dec_rdop (v : val) : option rdop :=
+  match v with
+  | VL [VZ 0; VL c] => match all_some (map dec_rdprules c) with Some c' => Some (DLoad c') | None => None end
+  | VL [VZ 1; VB p; u] => match dec_url u with Some u' => Some (DReq p u') | None => None end
+  | _ => None
+  end.
+Definition enc_rd (r : option (bytes * Z)) : val :=
+  match r with Some (loc, st) => VL [VZ 1; VB loc; VZ st] | None => VL [VZ 0] end.
+
+Inductive hdop := HLoad (c : hd_conf) | HReq (product : bytes) (req rsp : header).
+Definition dec_hdop (v : val) : option hdop :=
+  match v with
+  | VL [VZ 0; VL c] => match all_some (map dec_prules c) with Some c' => Some (HLoad c') | None => None end
+  | VL [VZ 1; VB p; a; b] =>
+    match dec_hdr a, dec_hdr b with Some a', Some b' => Some (HReq p a' b') | _, _ => None end
+  | _ => None
+  end.
+
 Inductive cinput :=
 | IRewrite (cmd : bytes) (params : list bytes) (u : url)
 | IHeader (cmd : bytes) (params : list bytes) (req rsp : header) (vars : list (bytes * bytes))
 | IRedirect (cmd : bytes) (params : list bytes) (u : url)
 | IDirect (cmd : bytes) (params : list bytes) (u : url) (h : header)
-| IRules (rs : list rw_rule) (u : url).
+| IRules (rs : list rw_rule) (u : url)
+| IRwHist (ops : list rwop)
+| IRdHist (ops : list rdop)
+| IHdHist (ops : list hdop) (vars : list (bytes * bytes)).
 Definition dec_in (v : val) : option cinput :=
   match v with
   | VL [VZ 1; VB c; ps; u] =>
@@ -63,6 +118,15 @@ Definition dec_in (v : val) : option cinput :=
     end
   | VL [VZ 3; VB c; ps; u] =>
     match as_LB ps, dec_url u with Some p, Some u' => Some (IRedirect c p u') | _, _ => None end
+  | VL [VZ 8; VL ops; VL vs] =>
+    match all_some (map dec_hdop ops), all_some (map dec_var vs) with
+    | Some o, Some vars => Some (IHdHist o vars)
+    | _, _ => None
+    end
+  | VL [VZ 7; VL ops] =>
+    match all_some (map dec_rdop ops) with Some o => Some (IRdHist o) | None => None end
+  | VL [VZ 6; VL ops] =>
+    match all_some (map dec_rwop ops) with Some o => Some (IRwHist o) | None => None end
   | VL [VZ 5; VL rs; u] =>
     match all_some (map dec_rule rs), dec_url u with Some r, Some u' => Some (IRules r u') | _, _ => None end
   | VL [VZ 4; VB c; ps; u; h] =>
@@ -75,11 +139,34 @@ Inductive coutput :=
 | OUrl (st : rstate)
 | OHdrs (req rsp : header)
 | ORedirect (target : bytes)
-| ODirect (st : rstate) (h : header).
+| ODirect (st : rstate) (h : header)
+| OHist (obs : list val).
+Fixpoint run_rw_ops (t : rw_conf) (ops : list rwop) : list val :=
+  match ops with
+  | [] => []
+  | RLoad c :: rest => (if rw_conf_ok c then VL [VZ 1] else VErr 1) :: run_rw_ops (rw_table_load t c) rest
+  | RReq p u :: rest => enc_st (rw_request t p u) :: run_rw_ops t rest
+  end.
+Fixpoint run_rd_ops (t : rd_conf) (ops : list rdop) : list val :=
+  match ops with
+  | [] => []
+  | DLoad c :: rest => (if rd_conf_ok c then VL [VZ 1] else VErr 1) :: run_rd_ops (rd_table_load t c) rest
+  | DReq p u :: rest => enc_rd (rd_request t p u) :: run_rd_ops t rest
+  end.
+Fixpoint run_hd_ops (vars : list (bytes * bytes)) (t : hd_conf) (ops : list hdop) : list val :=
+  match ops with
+  | [] => []
+  | HLoad c :: rest => (if hd_conf_ok c then VL [VZ 1] else VErr 1) :: run_hd_ops vars (hd_table_load t c) rest
+  | HReq p a b :: rest =>
+    (let '(a', b') := hd_request t vars p a b in VL [enc_hdr a'; enc_hdr b']) :: run_hd_ops vars t rest
+  end.
 Definition model (i : cinput) : coutput :=
   match i with
   | IRewrite c p u => match rewrite_run c p u with Some st => OUrl st | None => ORejected end
   | IRules rs u => match rewrite_rules_run rs u with Some st => OUrl st | None => ORejected end
+  | IRwHist ops => OHist (run_rw_ops [] ops)
+  | IRdHist ops => OHist (run_rd_ops [] ops)
+  | IHdHist ops vars => OHist (run_hd_ops vars [] ops)
   | IHeader c p a b vars => match header_run vars c p a b with Some (a', b') => OHdrs a' b' | None => ORejected end
   | IRedirect c p u => match redirect_run c p u with Some t => ORedirect t | None => ORejected end
   | IDirect c p u h => match direct_run c p u h with Some (st, h') => ODirect st h' | None => ORejected end
@@ -91,8 +178,10 @@ Definition enc_out (o : coutput) : val :=
   | OHdrs a b => VL [enc_hdr a; enc_hdr b]
   | ORedirect t => VL [VB t]
   | ODirect st h => VL [enc_st st; enc_hdr h]
+  | OHist obs => VL obs
   end.
 Definition dec_out (i : cinput) (v : val) : option coutput :=
+  match i with IRwHist _ | IRdHist _ | IHdHist _ _ => match v with VL obs => Some (OHist obs) | _ => None end | _ =>
   match v with
   | VL [VZ e; VZ c] => if (e =? -1) && (c =? 1) then Some ORejected else None
   | _ =>
@@ -104,13 +193,14 @@ Definition dec_out (i : cinput) (v : val) : option coutput :=
       | _ => None
       end
     | IRedirect _ _ _ => match v with VL [VB t] => Some (ORedirect t) | _ => None end
+    | IRwHist _ | IRdHist _ | IHdHist _ _ => None
     | IDirect _ _ _ _ =>
       match v with
       | VL [a; b] => match dec_st a, dec_hdr b with Some st, Some h => Some (ODirect st h) | _, _ => None end
       | _ => None
       end
     end
-  end.
+  end end.
 
 Definition wf_C49 (i : val) : bool := match dec_in i with Some _ => true | None => false end.
 Definition run_C49 (i : val) : val :=
@@ -225,11 +315,80 @@ Definition redirect_effect (cmd : bytes) (params : list bytes) (u : url) (t : by
   | None => true
   end.
 
+(* reload histories: the configuration in force is the one of the last accepted reload; a file whose actions are all
+   valid must be accepted; a request of a product that the configuration in force does not list is left untouched
+   (also when an earlier configuration had rules for it) *)
+Definition all_valid (c : rw_conf) : bool :=
+  forallb (fun pr => forallb (fun r : rw_rule => forallb (fun a => valid_rewrite_conf (fst a) (snd a)) (snd r)) (snd pr)) c.
+Definition is_load_ok (o : val) : bool := val_eqb o (VL [VZ 1]).
+Fixpoint prop_rw_ops (t : rw_conf) (ops : list rwop) (obs : list val) : bool :=
+  match ops, obs with
+  | [], [] => true
+  | RLoad c :: rest, o :: ro =>
+    if is_load_ok o then prop_rw_ops c rest ro
+    else val_eqb o (VErr 1) && negb (all_valid c) && prop_rw_ops t rest ro
+  | RReq p u :: rest, o :: ro =>
+    match rw_lookup p t with
+    | None => val_eqb o (enc_st (mkSt u None))
+    | Some _ => match dec_st o with Some _ => true | None => false end
+    end && prop_rw_ops t rest ro
+  | _, _ => false
+  end.
+(* redirect histories: configuration in force = last accepted reload; a product it does not list is never redirected;
+   otherwise the FIRST matching rule decides: Location as its action says, status as configured; no matching rule: no redirect *)
+Definition rd_valid (c : rd_conf) : bool :=
+  forallb (fun pr => forallb (fun r : rd_rule =>
+     match snd (fst r) with [(cmd, p)] => valid_redirect_conf cmd p && negb (snd r =? 0) | _ => false end) (snd pr)) c.
+Definition rd_step_prop (t : rd_conf) (p : bytes) (u : url) (o : val) : bool :=
+  match rd_lookup p t with
+  | None => val_eqb o (VL [VZ 0])
+  | Some rs =>
+    match rd_first_match rs with
+    | None => val_eqb o (VL [VZ 0])
+    | Some (_, [(cmd, ps)], status) =>
+      match o with
+      | VL [VZ 1; VB loc; VZ st] => redirect_effect cmd ps u loc && (st =? status)
+      | _ => false
+      end
+    | Some _ => true
+    end
+  end.
+Fixpoint prop_rd_ops (t : rd_conf) (ops : list rdop) (obs : list val) : bool :=
+  match ops, obs with
+  | [], [] => true
+  | DLoad c :: rest, o :: ro =>
+    if is_load_ok o then prop_rd_ops c rest ro
+    else val_eqb o (VErr 1) && negb (rd_valid c) && prop_rd_ops t rest ro
+  | DReq p u :: rest, o :: ro => rd_step_prop t p u o && prop_rd_ops t rest ro
+  | _, _ => false
+  end.
+(* header histories: configuration in force = last accepted reload; a file whose rules all have actions and only
+   valid documented actions must be accepted; when neither "global" nor the request's product is listed by the
+   configuration in force, both headers are left untouched *)
+Definition hd_valid (c : hd_conf) : bool :=
+  forallb (fun pr => forallb (fun r : hd_rule =>
+     nonempty (snd r) && forallb (fun a => valid_header_conf (fst a) (snd a)) (snd r)) (snd pr)) c.
+Fixpoint prop_hd_ops (t : hd_conf) (ops : list hdop) (obs : list val) : bool :=
+  match ops, obs with
+  | [], [] => true
+  | HLoad c :: rest, o :: ro =>
+    if is_load_ok o then prop_hd_ops c rest ro
+    else val_eqb o (VErr 1) && negb (hd_valid c) && prop_hd_ops t rest ro
+  | HReq p a b :: rest, o :: ro =>
+    match hd_lookup s_global t, hd_lookup p t with
+    | None, None => val_eqb o (VL [enc_hdr a; enc_hdr b])
+    | _, _ => match o with VL [x; y] => match dec_hdr x, dec_hdr y with Some _, Some _ => true | _, _ => false end | _ => false end
+    end && prop_hd_ops t rest ro
+  | _, _ => false
+  end.
 Definition spec (i : cinput) (o : coutput) : bool :=
   match i, o with
   | IRewrite c p u, ORejected => negb (valid_rewrite_conf c p)
   | IRewrite c p u, OUrl st' => rewrite_effect_st (to_upper c) p u st'
   | IRules rs u, ORejected => negb (forallb (fun r => forallb (fun a => valid_rewrite_conf (fst a) (snd a)) (snd r)) rs)
+  | IRwHist ops, OHist obs => prop_rw_ops [] ops obs
+  | IRdHist ops, OHist obs => prop_rd_ops [] ops obs
+  | IHdHist ops vars, OHist obs => prop_hd_ops [] ops obs
   | IRules rs u, OUrl _ => true        (* action sequences: tied by correspondence, effects claimed per single action *)
   | IHeader c p a b vars, ORejected => negb (valid_header_conf c p)
   | IHeader c p a b vars, OHdrs a' b' => header_effect vars c p a b a' b'
